@@ -25,6 +25,23 @@ class Env:
 
     def leaf(self, a, k):
         key = (a, k)
+        if key not in self.vals and getattr(self, 'unit', False) and a[0] == 'leaf' and a[2] and a[2][-1] in ('x', 'y', 'z', 'w'):
+            # the four components of one quaternion are drawn together, normalised
+            q = [self.rnd.gauss(0, 1) for _ in range(4)]
+            if self.special:
+                q = self.rnd.choice([[1, 0, 0, 0], [0, 0, 0, 1], [0.5, 0.5, 0.5, 0.5], [0, 0.6, 0.8, 0], q])
+            first = getattr(self, '_first_q', None)
+            if first is None:
+                self._first_q = q
+            elif getattr(self, 'near', False):
+                # nearly the same rotation as the first quaternion drawn, either representative
+                sg = self.rnd.choice([1.0, -1.0])
+                q = [sg * f + 0.02 * self.rnd.gauss(0, 1) for f in first]
+            nrm = math.sqrt(sum(x * x for x in q)) or 1.0
+            if first is None:
+                self._first_q = [x / nrm for x in q]
+            for c, v in zip('xyzw', q):
+                self.vals[(('leaf', a[1], a[2][:-1] + (c,)), k)] = v / nrm
         if key not in self.vals:
             if self.special:
                 self.vals[key] = self.rnd.choice([0.0, PI, -PI, PI / 2, -PI / 2, 1.0, -1.0, 3 * PI, -2 * PI, 0.5, 2.5, -2.5])
@@ -352,3 +369,29 @@ def sign_invariant(vals, i):
             return None
     # a rotation is the same whether all four components are kept or all are negated, case by case
     return 'E' if verdicts == {'E'} else 'O' if verdicts == {'O'} else 'EO'
+
+
+def cancel_recips(p):
+    """(sum of cofactors) * (P)^-1 with the cofactors adding up to P is 1"""
+    if p is None:
+        return p
+    groups = {}
+    rest = {}
+    for mono, c in p.m.items():
+        rec = [(a, pw) for a, pw in mono if a[0] == 'poly' and pw == -1]
+        if len(rec) == 1:
+            co = tuple((a, pw) for a, pw in mono if not (a[0] == 'poly' and pw == -1))
+            groups.setdefault(rec[0][0], {})[co] = c
+        else:
+            rest[mono] = c
+    out = Poly(rest)
+    for a, cof in groups.items():
+        s = Poly(cof)
+        base = from_key(a[1])
+        if s == base:
+            out = out + Poly.const(1.0)
+        elif s == -base:
+            out = out - Poly.const(1.0)
+        else:
+            out = out + s * Poly({((a, -1),): 1.0})
+    return out
